@@ -152,7 +152,7 @@ pub fn model_text<'a>(model: &'a Model, text: &'a str) -> String {
     out
 }
 
-pub const SHAPES: [&str; 29] = [
+pub const SHAPES: [&str; 34] = [
     "a.E: boom",
     "a.E",
     "x.Unknown: msg",
@@ -183,6 +183,12 @@ pub const SHAPES: [&str; 29] = [
     "\u{a0}a.E: nbsp",
     "    at app//a.b.m(F.java:2)",
     "    at java.base/x.Unknown.m(F.java:2)",
+    // other decorations Java and Android put into traces: none of them is a throwable-behind-"Caused by: " or a frame
+    "\tSuppressed: a.E: s",
+    "Suppressed: a.E",
+    "[CIRCULAR REFERENCE: a.E: c]",
+    "Exception in thread \"main\" a.E: t",
+    "E/AndroidRuntime(123): at a.b.m(F.java:2)",
 ];
 
 /// long lines (beyond any 1 KiB guard): appended as extra shapes to texts of <= 2 other lines
@@ -308,11 +314,39 @@ fn text_dfs(seq: &mut Vec<usize>, left: usize, builts: &[Built], subs: &[(&dyn S
     }
 }
 
+/// run-length texts: N unresolved frame lines (unknown class / known class with unknown method / line outside
+/// every range), then a frame of a known class that does not resolve, then frames that do resolve; with and
+/// without a throwable first; frames that differ only in their file
+pub fn run_length_texts() -> Vec<String> {
+    let mut v = Vec::new();
+    for n in [99usize, 100, 101, 255, 256, 499, 500, 501, 1000, 1001] {
+        for (ui, unresolved) in ["    at x.Unknown.m(U.java:2)", "    at a.b.zz(F.java:2)", "    at a.b.m(F.java:99)"].iter().enumerate() {
+            let mut t = String::new();
+            if ui != 1 {
+                t.push_str("a.E: top\n");
+            }
+            for _ in 0..n {
+                t.push_str(unresolved);
+                t.push('\n');
+            }
+            t.push_str("    at a.b.zz(F.java:2)\n    at a.b.m(F.java:2)\n    at a.b.m(Other.kt:2)\n    at a.b.n(F.java:7)\n    at a.b.n(G.java:7)\nCaused by: a.E: inner\n    at a.b.m(F.java:5)\n");
+            v.push(t);
+        }
+        // n resolving frames alternating between two files
+        let mut t = String::from("a.E\n");
+        for i in 0..n {
+            t.push_str(if i % 2 == 0 { "    at a.b.n(F.java:7)\n" } else { "    at a.b.n(G.java:7)\n" });
+        }
+        v.push(t);
+    }
+    v
+}
+
 pub fn run_c07(tier: Tier) -> i32 {
     let t = tier.thorough();
     let budget = Budget::new(if t { 14 * 60 } else { 50 });
     let depth = if t { 5 } else { 4 };
-    let mut work: Vec<Vec<usize>> = vec![vec![]];
+    let mut work: Vec<Vec<usize>> = vec![vec![], vec![usize::MAX]];
     for a in 0..SHAPES.len() {
         for b in 0..SHAPES.len() {
             work.push(vec![a, b]);
@@ -324,6 +358,14 @@ pub fn run_c07(tier: Tier) -> i32 {
         // objects are built once per work item (they are immutable; C14/C20 cover repeated use)
         let mut abs: Vec<Aligned> = builts.iter().map(|_| Aligned::new(&[])).collect();
         let mut run = |subs: &[(&dyn Subj, &dyn Subj)]| {
+            if first == &vec![usize::MAX] {
+                for t in run_length_texts() {
+                    for (bi, b) in builts.iter().enumerate().take(subs.len()) {
+                        check_text(b, &t, subs[bi].0, subs[bi].1, acc);
+                    }
+                }
+                return;
+            }
             let mut seq = first.clone();
             if first.len() <= 1 {
                 text_dfs(&mut seq, 0, &builts, subs, acc, budget);
@@ -340,8 +382,8 @@ pub fn run_c07(tier: Tier) -> i32 {
         prop: "C07",
         tier,
         level: "model_checking",
-        rule: format!("every text of 1..={} lines over 29 line shapes (plus 5 long lines of 1.1 kB / 70 kB placed first, between and after <= 2 other shapes) (throwables known/unknown with/without message, message containing ': ' and frame-like text, frames space/tab/trailing-blank indented that resolve to 2 / 1 / 0 frames, unknown method, unknown class, line outside every range, Native Method, Unknown Source, 'Caused by:' known/unknown/indented, '... n more', blank, 'at x(y:1)', non-ASCII) x 3 terminator policies (LF, CRLF, no final newline) x 3 mappings x {{mapper, cache}}; oracle = text model R12 with an independent line classifier. states = (text, mapping); distinct = distinct expected outputs; non-trivial = outputs that differ from the normalised input", depth),
-        bounds: json!({"lines": depth, "shapes": SHAPES, "terminators": ["LF","CRLF","LF without final newline"], "mappings": mappings().iter().map(|(l, m)| json!({"label":l,"text":esc(&print_file(m, Term::Lf))})).collect::<Vec<_>>()}),
+        rule: format!("every text of 1..={} lines over 34 line shapes (plus long lines and run-length texts: 99..1001 unresolved frames followed by a resolving one; plus 5 long lines of 1.1 kB / 70 kB placed first, between and after <= 2 other shapes) (throwables known/unknown with/without message, message containing ': ' and frame-like text, frames space/tab/trailing-blank indented that resolve to 2 / 1 / 0 frames, unknown method, unknown class, line outside every range, Native Method, Unknown Source, 'Caused by:' known/unknown/indented, '... n more', blank, 'at x(y:1)', non-ASCII) x 3 terminator policies (LF, CRLF, no final newline) x 3 mappings x {{mapper, cache}}; oracle = text model R12 with an independent line classifier. states = (text, mapping); distinct = distinct expected outputs; non-trivial = outputs that differ from the normalised input", depth),
+        bounds: json!({"lines": depth, "shapes": SHAPES.to_vec(), "terminators": ["LF","CRLF","LF without final newline"], "mappings": mappings().iter().map(|(l, m)| json!({"label":l,"text":esc(&print_file(m, Term::Lf))})).collect::<Vec<_>>()}),
         assumptions: vec!["lines are split like str::lines (LF, CR dropped only directly before LF)".into()],
         trusted_base: vec!["rustc/std (str::trim, str::parse::<usize>)".into(), "text model + line classifier in pgmc/src/props/e3.rs".into(), "reference model pgmc/src/model.rs".into()],
     };
@@ -485,6 +527,22 @@ fn check_typed(b: &Built, t: &OTrace, canonical: bool, mapper: &dyn Subj, cache:
     }
 }
 
+/// long typed traces (run lengths of unresolved frames, frames differing only in file): the texts of
+/// `run_length_texts` parsed by the library's own trace parser (C17 covers that parser) and remapped typed
+fn c08_run_lengths(builts: &[Built], acc: &mut Acc) {
+    for t in run_length_texts() {
+        for b in [&builts[3], &builts[2]] {
+            let mut ab = Aligned::new(&[]);
+            with_both(&b.bytes, &mut ab, |m, c| {
+                if let Some((parsed, _, _)) = m.remap_typed_text(&t) {
+                    check_typed(b, &parsed, true, m, c, acc);
+                    acc.count("run-length typed traces", 1);
+                }
+            });
+        }
+    }
+}
+
 pub fn run_c08(tier: Tier) -> i32 {
     let t = tier.thorough();
     let budget = Budget::new(if t { 14 * 60 } else { 50 });
@@ -506,6 +564,9 @@ pub fn run_c08(tier: Tier) -> i32 {
     let nlevels = levels.len();
     let acc = par_run(&work, &budget, |&(ti, fi), acc, budget| {
         let builts = build_all();
+        if (ti, fi) == (0, 0) {
+            c08_run_lengths(&builts, acc);
+        }
         let mut abs: Vec<Aligned> = vec![Aligned::new(&[]), Aligned::new(&[])];
         let (a1, a2) = abs.split_at_mut(1);
         with_both(&builts[3].bytes, &mut a1[0], |m1, c1| {
@@ -561,7 +622,7 @@ pub fn run_c08(tier: Tier) -> i32 {
         prop: "C08",
         tier,
         level: "model_checking",
-        rule: format!("every typed trace with a top level from {} levels (exception absent / known / unknown x message / none; 0..2 frames over 8 frame kinds: resolving to 2 frames, unknown method, unknown class, entry without lines, known method with a line outside every range, two class names with a module prefix containing '/', a frame resolving to 40 frames) and cause chains of depth 0..={} (first cause level: {}; deeper levels: {} ) x 2 mappings x {{mapper, cache}}; oracle R13 (same depth, every throwable remapped-or-identical, every frame expanded-or-identical, order kept) and, for every trace, printed typed result == text API on the printed input. distinct = distinct expected traces; non-trivial = expected != input", nlevels, max_depth, if t { "all levels with an exception" } else { "levels with an exception and <= 1 frame" }, if t { "depth 2: the first 40 levels with an exception, depth 3: the 8-level pool {known, unknown} x {no frame, resolving, '/'-class, 40-deep}; plus depth-4 chains: first level <= 1 frame, then the 8-level pool" } else { "the 8-level pool {known, unknown} x {no frame, resolving, '/'-class, 40-deep}" }),
+        rule: format!("every typed trace with a top level from {} levels (exception absent / known / unknown x message / none; 0..2 frames over 8 frame kinds: resolving to 2 frames, unknown method, unknown class, entry without lines, known method with a line outside every range, two class names with a module prefix containing '/', a frame resolving to 40 frames) and cause chains of depth 0..={} (first cause level: {}; deeper levels: {} ) x 2 mappings x {{mapper, cache}}; plus long traces (99..1001 unresolved frames followed by resolving ones, frames that differ only in their file); oracle R13 (same depth, every throwable remapped-or-identical, every frame expanded-or-identical, order kept) and, for every trace, printed typed result == text API on the printed input. distinct = distinct expected traces; non-trivial = expected != input", nlevels, max_depth, if t { "all levels with an exception" } else { "levels with an exception and <= 1 frame" }, if t { "depth 2: the first 40 levels with an exception, depth 3: the 8-level pool {known, unknown} x {no frame, resolving, '/'-class, 40-deep}; plus depth-4 chains: first level <= 1 frame, then the 8-level pool" } else { "the 8-level pool {known, unknown} x {no frame, resolving, '/'-class, 40-deep}" }),
         bounds: json!({"top_levels": nlevels, "max_cause_depth": max_depth, "throwables": THROWABLES.iter().map(|t| format!("{:?}", t)).collect::<Vec<_>>(), "frames": FRAMES.iter().map(|f| format!("{:?}", f)).collect::<Vec<_>>()}),
         assumptions: vec!["canonical printed form: frames carry a file, cause levels carry an exception, the top level has an exception or a frame".into()],
         trusted_base: vec!["rustc/std".into(), "reference model pgmc/src/model.rs + model_typed in pgmc/src/props/e3.rs".into()],
@@ -586,8 +647,8 @@ pub fn recheck_typed(case: &Value) -> Vec<String> {
 // ---------------------------------------------------------------------------------------------
 // C17: print -> parse round trip
 
-const RT_CLASSES: [&str; 4] = ["a.b.Err", "x.Y$Z", "\u{e9}.\u{dc}", "Caused"];
-const RT_MESSAGES: [Option<&str>; 10] = [
+const RT_CLASSES: [&str; 6] = ["a.b.Err", "x.Y$Z", "\u{e9}.\u{dc}", "Caused", "Process", "FATAL"];
+const RT_MESSAGES: [Option<&str>; 14] = [
     None,
     Some("m"),
     Some("x: y"),
@@ -599,6 +660,11 @@ const RT_MESSAGES: [Option<&str>; 10] = [
     Some("ls\u{2028}ps\u{2029}nel\u{85}end"),
     Some("vt\u{b}ff\u{c}tab\tcr\rnbsp\u{a0}end"),
     Some("bs\\q\"x"),
+    // log decorations as message text
+    Some("worker exited, PID: 4242"),
+    Some("open(/proc/self/maps): at a.b.C.run(SourceFile:17)"),
+    Some("E/Tag(12): at a.b.C.run(F.java:1)"),
+    Some("Exception in thread \"main\" x"),
 ];
 const RT_FCLASSES: [&str; 2] = ["a.b.C", "x.Y$1"];
 const RT_METHODS: [&str; 3] = ["m", "<init>", "\u{e9}"];
@@ -654,8 +720,11 @@ pub fn run_c17(tier: Tier) -> i32 {
     let mut thr: Vec<(String, Option<String>)> = Vec::new();
     for (ci, c) in RT_CLASSES.iter().enumerate() {
         for (mi, m) in RT_MESSAGES.iter().enumerate() {
-            // the three special-character messages: with the first class only
-            if mi >= 7 && ci > 0 {
+            // the special messages: with the first class only; the two log-header classes: with three messages only
+            if mi >= 7 && ci > 0 && !(ci >= 4 && mi == 10) {
+                continue;
+            }
+            if ci >= 4 && ![0usize, 1, 10].contains(&mi) {
                 continue;
             }
             thr.push((c.to_string(), m.map(|s| s.to_string())));
@@ -696,9 +765,9 @@ pub fn run_c17(tier: Tier) -> i32 {
         }
         let top_exc = ti.map(|i| thr[i].clone());
         // second frame: a stride through the frame list (full list in thorough)
-        let second: Vec<Option<usize>> = if fi.is_some() { std::iter::once(None).chain((0..nf).filter(|k| t || k % 7 == 0).map(Some)).collect() } else { vec![None] };
+        let second: Vec<Option<usize>> = if fi.is_some() { std::iter::once(None).chain((0..nf).filter(|k| t || k % 13 == 0).map(Some)).collect() } else { vec![None] };
         // cause levels: throwable from a sub-list, 0..1 frames (2 in thorough)
-        let cause_thr: Vec<usize> = (0..nthr).filter(|k| t || k % 3 == 0).collect();
+        let cause_thr: Vec<usize> = (0..nthr).filter(|k| t || k % 4 == 0).collect();
         let cause_frames: Vec<Option<usize>> = std::iter::once(None).chain((0..nf).filter(|k| k % (if t { 9 } else { 17 }) == 0).map(Some)).collect();
         for s in &second {
             let mut fr = Vec::new();
@@ -736,7 +805,7 @@ pub fn run_c17(tier: Tier) -> i32 {
                 }
             }
             // only the thin top-level family carries chains (otherwise the product explodes)
-            if s.is_none() {
+            if s.is_none() && fi.map(|f| f % 5 == 0).unwrap_or(true) {
                 let mut chain = vec![top.clone()];
                 rec(&mut chain, max_depth, &cause_thr, &cause_frames, &thr, &frames, acc, budget, false);
             }
@@ -756,7 +825,7 @@ pub fn run_c17(tier: Tier) -> i32 {
         prop: "C17",
         tier,
         level: "model_checking",
-        rule: format!("throwables: 4 classes (with $, non-ASCII, 'Caused') x 10 messages (none, plain, 'x: y', 'Caused by: z', 'at a.b(c:1)', non-ASCII, inner double space and parentheses, interior U+2028/U+2029/U+0085, interior VT/FF/TAB/CR/NBSP, backslash and quote) = {}; frames (+ 2 whose class carries a module prefix containing '/'): 2 classes x 3 methods (m, <init>, non-ASCII) x 4 files (F.java, 'Unknown Source', '<unknown>', 'F(1).kt') x lines {{0,1,2^64-1}} = {}; traces: top-level exception present/absent x 0..2 frames (all first frames; second frame {}), one level with 20 frames, cause chains of depth 0..={} over a sub-family of cause levels; frames without file: text fix-point only. Oracle: parse(print(t)) == t and print(parse(print(t))) == print(t); single frames (3 indentations) and throwables likewise. distinct = distinct traces", nthr, nf, if t { "all" } else { "every 7th" }, max_depth),
+        rule: format!("throwables: 4 classes (with $, non-ASCII, 'Caused') x 10 messages (none, plain, 'x: y', 'Caused by: z', 'at a.b(c:1)', non-ASCII, inner double space and parentheses, interior U+2028/U+2029/U+0085, interior VT/FF/TAB/CR/NBSP, backslash and quote) = {}; frames (+ 2 whose class carries a module prefix containing '/'): 2 classes x 3 methods (m, <init>, non-ASCII) x 4 files (F.java, 'Unknown Source', '<unknown>', 'F(1).kt') x lines {{0,1,2^64-1}} = {}; traces: top-level exception present/absent x 0..2 frames (all first frames; second frame {}), one level with 20 frames, cause chains of depth 0..={} over a sub-family of cause levels (below tops without frames or with every 5th first frame); frames without file: text fix-point only. Oracle: parse(print(t)) == t and print(parse(print(t))) == print(t); single frames (3 indentations) and throwables likewise. distinct = distinct traces", nthr, nf, if t { "all" } else { "every 13th" }, max_depth),
         bounds: json!({"throwables": nthr, "frames": nf, "max_cause_depth": max_depth}),
         assumptions: vec!["frames carry a file (a None file prints as <unknown> and parses back as Some(\"<unknown>\"): only the text fix-point is checked for it)".into(), "cause levels carry an exception; the trace with neither exception nor frames is excluded (try_parse defines it as not a trace)".into()],
         trusted_base: vec!["rustc/std".into(), "PartialEq of StackTrace / StackFrame / Throwable".into()],
